@@ -11,6 +11,7 @@ package main
 // against the process-wide stubs.  Every request is logged in its zone.
 
 import (
+	"bufio"
 	"bytes"
 	"context"
 	"crypto/ecdsa"
@@ -19,7 +20,6 @@ import (
 	"crypto/tls"
 	"crypto/x509"
 	"crypto/x509/pkix"
-	"bufio"
 	"errors"
 	"fmt"
 	"io"
@@ -76,14 +76,14 @@ func (z *zone) take(l *[]string) []string {
 }
 
 var (
-	zones     sync.Map // "n12" -> *zone ; literal host -> *zone
-	strayMu   sync.Mutex
-	stray     []string
-	zoneRe    = regexp.MustCompile(`(?:^|[^a-z0-9])(n\d+)\.c16\.test`) // anywhere: mis-split names still find their scenario
-	stubOnce  sync.Once
-	stubAddr  string
-	certOnce  sync.Once
-	stubCert  tls.Certificate
+	zones    sync.Map // "n12" -> *zone ; literal host -> *zone
+	strayMu  sync.Mutex
+	stray    []string
+	zoneRe   = regexp.MustCompile(`(?:^|[^a-z0-9])(n\d+)\.c16\.test`) // anywhere: mis-split names still find their scenario
+	stubOnce sync.Once
+	stubAddr string
+	certOnce sync.Once
+	stubCert tls.Certificate
 )
 
 func zoneOf(host string) *zone {
@@ -287,7 +287,7 @@ func newTLSSrv(ip string, onReq func(sni, host string) bool) (*tlsSrv, error) {
 			go func() {
 				defer s.wg.Done()
 				defer c.Close()
-				_ = c.SetDeadline(time.Now().Add(20 * time.Second))
+				_ = c.SetDeadline(time.Now().Add(reqTimeout))
 				sni := ""
 				tc := tls.Server(c, &tls.Config{
 					Certificates: []tls.Certificate{cert},
@@ -317,4 +317,26 @@ func newTLSSrv(ip string, onReq func(sni, host string) bool) (*tlsSrv, error) {
 func (s *tlsSrv) close() {
 	_ = s.ln.Close()
 	s.wg.Wait()
+}
+
+// reqTimeout bounds one client request.  Every stub answers at once and every address is loopback, so it is
+// never approached unless the library hangs; after two such hangs of one kind the remaining scenarios of that
+// kind are reported without being run (a hanging library must not turn the check into hours of time-outs).
+const reqTimeout = 15 * time.Second
+
+var (
+	hangMu sync.Mutex
+	hangs  = map[string]int{}
+)
+
+func noteHang(key string) {
+	hangMu.Lock()
+	hangs[key]++
+	hangMu.Unlock()
+}
+
+func tripped(key string) bool {
+	hangMu.Lock()
+	defer hangMu.Unlock()
+	return hangs[key] >= 2
 }
